@@ -1041,6 +1041,108 @@ theorem loopB (ha : TrackM oa M Ta Ba ra) (hb : TrackM ob M Tb Bb rb) (t : Int) 
         · exact ⟨nodeOk_of_st ha hb hst', by omega, fun h => by cases h⟩
         · exact absurd ht hok
 
+/-- the `Seek` loop from a node that follows `L` -/
+theorem loopT (ha : TrackM oa M Ta Ba ra) (hb : TrackM ob M Tb Bb rb) (t : Int) :
+    ∀ (n : Nat) (s : Node α β) (L : List Sample), nodeT oa ob Ta Ba Tb Bb s L →
+      nodeRem ra rb s + 1 ≤ n →
+      nodeOk oa ob (nodeSeekLoop oa ob t n s).1 ∧
+      nodeRem ra rb (nodeSeekLoop oa ob t n s).1 ≤ nodeRem ra rb s ∧
+      (s.lastT < t → (nodeSeekLoop oa ob t n s).2 = true →
+        nodeRem ra rb (nodeSeekLoop oa ob t n s).1 < nodeRem ra rb s) ∧
+      (dropLt t L ≠ [] → (nodeSeekLoop oa ob t n s).2 = true ∧
+        nodeT oa ob Ta Ba Tb Bb (nodeSeekLoop oa ob t n s).1 (dropLt t L)) ∧
+      (dropLt t L = [] → (nodeSeekLoop oa ob t n s).2 = true →
+        nodeB oa ob Ta Ba Tb Bb (nodeSeekLoop oa ob t n s).1) := by
+  intro n
+  induction n with
+  | zero => intro s L _ hn; omega
+  | succ n ih =>
+    intro s L hT hn
+    obtain ⟨la0, lb0, hst0, hpos⟩ := nodePos_of_T ha hb hT
+    have hat := nodePos_atT hpos
+    obtain ⟨la, lb, hst, hsame, hpen, cur, hcur, hct, hL⟩ := hT
+    unfold nodeSeekLoop
+    simp only [hat]
+    by_cases hge : s.lastT ≥ t
+    · -- already at or after t: Seek on the side in use, which stays where it is
+      simp only [hge, if_true]
+      have hDL : dropLt t L = L := by rw [hL]; exact dropLt_cons_ge (by omega)
+      rw [hDL]
+      have hLne : L ≠ [] := by rw [hL]; simp
+      cases hu : s.useA with
+      | true =>
+        have hl : s.lastIsA = true := by rw [hsame, hu]
+        rw [hl] at hcur hpen; simp only [if_true] at hcur hpen
+        have hlane : la ≠ [] := by intro he; rw [he] at hcur; simp at hcur
+        simp only [if_true]
+        rcases hst.2.1 with ⟨_, hav, hTa⟩ | ⟨he, _, _⟩ | ⟨he, _, _⟩
+        · have hself : dropLt s.lastT la = la := by
+            cases la with
+            | nil => exact absurd rfl hlane
+            | cons x ta => simp at hcur; subst hcur; exact dropLt_cons_ge (by omega)
+          obtain ⟨hok, hT'⟩ := ha.tSeekT s.a la s.lastT hTa (by rw [hself]; exact hlane)
+          rw [hself] at hT'
+          refine ⟨?_, ?_, fun h => by omega, fun _ => ⟨hok, ?_⟩, fun he => absurd he hLne⟩
+          · unfold nodeOk; simp only
+            rw [hst.1, ha.tBad _ _ hT', hst.2.2.nbad hb]; rfl
+          · unfold nodeRem remOf; simp only [hav, if_true]
+            have := ha.remSeekLe s.a s.lastT (Or.inl ⟨_, hTa⟩); omega
+          · exact ⟨la, lb, ⟨hst.1, Or.inl ⟨hlane, hav, hT'⟩, hst.2.2⟩, hl, by simp only [hl, if_true]; exact hpen,
+              cur, by simp only [hl, if_true]; exact hcur, hct, hL⟩
+        · exact absurd he hlane
+        · exact absurd he hlane
+      | false =>
+        have hl : s.lastIsA = false := by rw [hsame, hu]
+        rw [hl] at hcur hpen; simp only [Bool.false_eq_true, if_false] at hcur hpen
+        have hlbne : lb ≠ [] := by intro he; rw [he] at hcur; simp at hcur
+        simp only [Bool.false_eq_true, if_false]
+        rcases hst.2.2 with ⟨_, hbv, hTb⟩ | ⟨he, _, _⟩ | ⟨he, _, _⟩
+        · have hself : dropLt s.lastT lb = lb := by
+            cases lb with
+            | nil => exact absurd rfl hlbne
+            | cons x tb => simp at hcur; subst hcur; exact dropLt_cons_ge (by omega)
+          obtain ⟨hok, hT'⟩ := hb.tSeekT s.b lb s.lastT hTb (by rw [hself]; exact hlbne)
+          rw [hself] at hT'
+          refine ⟨?_, ?_, fun h => by omega, fun _ => ⟨hok, ?_⟩, fun he => absurd he hLne⟩
+          · unfold nodeOk; simp only
+            rw [hst.1, hb.tBad _ _ hT', hst.2.1.nbad ha]; rfl
+          · unfold nodeRem remOf; simp only [hbv, if_true]
+            have := hb.remSeekLe s.b s.lastT (Or.inl ⟨_, hTb⟩); omega
+          · exact ⟨la, lb, ⟨hst.1, hst.2.1, Or.inl ⟨hlbne, hbv, hT'⟩⟩, hl,
+              by simp only [hl, Bool.false_eq_true, if_false]; exact hpen,
+              cur, by simp only [hl, Bool.false_eq_true, if_false]; exact hcur, hct, hL⟩
+        · exact absurd he hlbne
+        · exact absurd he hlbne
+    · -- before t: Next, then go on
+      simp only [hge, if_false]
+      have hlt : s.lastT < t := by omega
+      have hremlt := nodeRem_next_lt ha hb hst hpos
+      obtain ⟨⟨t1, t2⟩, _⟩ := nodeNext_track ha hb s hst hsame
+      have hDL : dropLt t L = dropLt t (pm2 s.lastT (dropLt (s.lastT + 1 + s.penA) la)
+          (dropLt (s.lastT + 1 + s.penB) lb)) := by
+        rw [hL, dropLt_cons_lt (by omega)]
+      rw [hDL]
+      by_cases hF : pm2 s.lastT (dropLt (s.lastT + 1 + s.penA) la) (dropLt (s.lastT + 1 + s.penB) lb) = []
+      · -- nothing more to follow
+        rw [hF]
+        simp only [dropLt_nil]
+        by_cases hok : (nodeNext oa ob s).2 = true
+        · simp only [hok, if_true]
+          rcases t2 hF with ⟨hf, _⟩ | ⟨_, hB'⟩
+          · rw [hf] at hok; cases hok
+          · obtain ⟨i1, i2, i3⟩ := loopB ha hb t n _ hB' (by omega)
+            exact ⟨i1, by omega, fun _ _ => (by omega), fun hne => absurd rfl hne,
+              fun _ hq => (i3 hq).1⟩
+        · simp only [hok, Bool.false_eq_true, if_false]
+          rcases t2 hF with ⟨_, hst'⟩ | ⟨ht, _⟩
+          · exact ⟨nodeOk_of_st ha hb hst', by omega, fun _ h => (by cases h),
+              fun hne => absurd rfl hne, fun _ h => (by cases h)⟩
+          · exact absurd ht hok
+      · obtain ⟨hok, hT'⟩ := t1 hF
+        simp only [hok, if_true]
+        obtain ⟨i1, i2, i3, i4, i5⟩ := ih _ _ hT' (by omega)
+        exact ⟨i1, by omega, fun _ _ => (by omega), i4, i5⟩
+
 end node
 
 end Thanos.Dedup
